@@ -59,7 +59,10 @@ def ACOTH(number):
     number = utils.parse_number(number)
     if isinstance(number, error.XLError):
         return number
-    return 0.5 * math.log((number + 1) / (number - 1))
+    # not 0.5 * log((x + 1) / (x - 1)): for large x the quotient rounds to 1 and the
+    # result to 0 (ACOTH(1e17) is 1e-17, not 0). (x + 1) / (x - 1) is 1 + 2 / (x - 1),
+    # and x - 1 is exact near 1; the function is odd
+    return math.copysign(0.5 * math.log1p(2 / (abs(number) - 1)), number)
 
 
 @dispatcher.register_for('SIN')
